@@ -32,7 +32,8 @@ def child(a):
     """Runs inside the staged environment."""
     from . import engine
     flavour = a['child']
-    seed = int(os.environ.get('VERIF_SEED', '0') or 0)
+    # VERIF_SEED only selects one of four pre-verified value palettes (never sampling): any integer is reduced mod 4
+    seed = int(os.environ.get('VERIF_SEED', '0') or 0) % 4
     mod = importlib.import_module('checks.' + a['prop'])
     res = {'flavours': list(getattr(mod, 'FLAVOURS', ('plain',))), 'flavour': flavour}
     if a['case']:
